@@ -58,6 +58,9 @@ def _case(draw):
             modes.append("return-mode: no-matches")
         if draw(st.integers(0, 5)) == 3:
             modes.append("unmatched-mode: keep")
+        if draw(st.integers(0, 4)) == 3:
+            # standard out is dropped, every other printer (the test printer, the Result) still gets the lines
+            modes.append("print-mode: no-default")
         if draw(st.integers(0, 4)) == 1:
             # a run-time argument error on every scanned line (column 0 holds text): handled per the configured policy
             prog["comps"].insert(draw(st.integers(0, len(prog["comps"]))), ["=", "ez", [], None, ["f", "add", [], [["hi", 0], ["t", 1]]]])
